@@ -1,9 +1,12 @@
 package main
 
 import (
+	"errors"
 	"fmt"
 	"math"
 	"reflect"
+	"regexp"
+	"sort"
 	"strings"
 
 	"go.flow.arcalot.io/pluginsdk/schema"
@@ -45,6 +48,13 @@ func (in *instance) argFor(op, tok string, m flat) (any, error) {
 	switch in.kind {
 	case "steps":
 		return nil, nil // the input of the step / signal is fixed (callStep)
+	case "disabled":
+		switch tok {
+		case "uses_disabled":
+			return map[string]any{"settings": map[string]any{"legacy": int(1)}}, nil
+		case "keeps":
+			return map[string]any{"settings": map[string]any{"keep": int(1)}}, nil
+		}
 	case "chain":
 		switch tok {
 		case "scalar":
@@ -143,6 +153,12 @@ func (in *instance) argFor(op, tok string, m flat) (any, error) {
 			return map[string]any{"v": fmt.Sprintf("5%s", in.unitNm)}, nil
 		case "str_bad":
 			return map[string]any{"v": "5 parsecs!"}, nil
+		case "str_over":
+			// well-formed, but the count does not fit into 64 bits
+			return map[string]any{"v": "99999999999999999999" + in.unitNm}, nil
+		case "list_over":
+			q := "99999999999999999999" + in.unitNm
+			return map[string]any{"l": []any{q, q}}, nil
 		case "num":
 			if op == "fmt" {
 				return nil, nil
@@ -376,7 +392,13 @@ func (in *instance) call(op, tok string, m flat) (o obs) {
 		return o
 	}
 	if cerr != nil {
-		o.Err = cerr.Error()
+		o.ErrKey, o.ErrPath = errKey(cerr)
+		if o.ErrPath <= 32 {
+			o.Err = cerr.Error()
+		}
+		if in.kind == "disabled" && o.ErrPath >= 0 {
+			o.N = int64(o.ErrPath)
+		}
 		return o
 	}
 	o.Ok = true
@@ -409,6 +431,8 @@ func (in *instance) call(op, tok string, m flat) (o obs) {
 		}
 	case "compat2":
 		// verdict only
+	case "disabled":
+		o.N = 1
 	case "objnest":
 		f := emptyFlat
 		midFlat := func(mp map[string]any) {
@@ -533,6 +557,11 @@ func (in *instance) call(op, tok string, m flat) (o obs) {
 			o.FlatErr = fmt.Sprintf("units result %T", res)
 			return o
 		}
+		if l, isList := mp["l"]; isList && mp["v"] == nil {
+			// a list of quantities was accepted: the model expects none of the list arguments to be
+			o.N = -2 - int64(reflect.ValueOf(l).Len())
+			return o
+		}
 		var val float64
 		switch x := mp["v"].(type) {
 		case int64:
@@ -577,6 +606,32 @@ func (in *instance) call(op, tok string, m flat) (o obs) {
 		o.N = 1
 	}
 	return o
+}
+
+var wordRe = regexp.MustCompile(`[^\pL\pN_]+`)
+var ptrRe = regexp.MustCompile(`0x[0-9a-f]{6,}`)
+
+// errKey renders what must be equal between two rejections of one (schema, argument): the path of the offending
+// element and the message - as a bag of words, because messages may list map keys in iteration order.
+func errKey(err error) (string, int) {
+	path, n := "-", -1
+	var ce *schema.ConstraintError
+	if errors.As(err, &ce) && ce != nil {
+		n = len(ce.Path)
+		if n > 32 {
+			// a path longer than any schema here is deep: keep the check cheap
+			return fmt.Sprintf("path of %d segments", n), n
+		}
+		path = strings.Join(ce.Path, "/")
+	}
+	text := err.Error()
+	if len(text) > 4096 {
+		text = text[:4096]
+	}
+	// addresses of schema values printed into messages differ from instance to instance
+	words := wordRe.Split(ptrRe.ReplaceAllString(text, "PTR"), -1)
+	sort.Strings(words)
+	return "path=" + path + " words=" + strings.Join(words, " "), n
 }
 
 // callStep issues a step or signal call on the callable schema; tok is the run ID.
